@@ -291,6 +291,11 @@ func cmdCheck(args []string) int {
 			rep.Obligations++
 			rep.Failed = append(rep.Failed, full+":"+o.Result)
 			inBase := baseSet[f.res.Key+"#"+normObl(full)]
+			if matchKnown(&known, *prop, f.res.Key, o) != nil {
+				// the obligation of a listed known finding fails OUTSIDE the finding's input class: a
+				// different violation of the same obligation, reported like a regression
+				inBase = true
+			}
 			// replay
 			rfile := filepath.Join(outDir, "replays", *prop, safeName(f.res.Short+"#"+full)+".json")
 			var rr ReplayResult
